@@ -77,6 +77,10 @@ def run(ctx):
     # (4)+(5) operand powers and node vocabulary
     ctx.attempt("check_operands", check_operands, ctx, lib, table)
     ctx.attempt("check_nodes", check_nodes, ctx, lib)
+    # which routine a token hands the rest of the input to decides how far its operand extends: after '.', a '{' must go
+    # through expr(lbp) like an identifier, not stop at the closing brace (dispatch rows shared with C03)
+    from .c03 import check_dispatch
+    ctx.attempt("check_dispatch", check_dispatch, ctx, lib)
 
 
 # ---------------------------------------------------------------------------
